@@ -63,7 +63,10 @@ func walkImage(t *hist.Table, tm *replication.TableMap, present []bool, vals []h
 		want := hist.EncodeCell(col, vals[c])
 		var n int
 		var out []byte
-		err := guard(func() (e error) { out, n, e = replication.CellBytes(image, pos, tm.Types[c], tm.Metadata[c], col.Unsigned); return })
+		err := guard(func() (e error) {
+			out, n, e = replication.CellBytes(image, pos, tm.Types[c], tm.Metadata[c], col.Unsigned)
+			return
+		})
 		if err != nil {
 			return fmt.Errorf("%s col %d (type %d): CellBytes failed at offset %d: %v", what, c, col.Type, pos, err)
 		}
